@@ -1,4 +1,4 @@
-\* C17: three well-formed exec clients x modules, every interleaving; CRC table initialised before the accept loop.
+\* C17 (quick): three well-formed exec clients x modules, every interleaving; one OUTPUT frame per unit (line-buffered); arbitrary frame boundaries are explored by Vmd_c17_full.
 SPECIFICATION Spec
 CONSTANTS
   N = 3
@@ -7,7 +7,7 @@ CONSTANTS
   CrcModel = "atomic"
   IgnoreSigpipe = TRUE
   Cap = 2
-  Buffered = TRUE
+  Buffered = FALSE
   Gaps = "overlap"
   DropExit = FALSE
   KeepData = TRUE
